@@ -84,6 +84,10 @@ all_in = z3.Function("all_in", S, S, B)           # every character of the 1st s
 all_in_wit = z3.Function("all_in_wit", S, S, I)
 joined = z3.Function("joined", S, Obj, S)         # sep.join(list of str)
 join_wit = z3.Function("join_wit", S, Obj, S, I)
+# chin(s, c): c is a single character occurring in s  (== len(c) == 1 and c in s).  Proofs about character sets go
+# through this symbol and E-matching hints; z3's sequence solver spins on negative Contains literals otherwise.
+chin = z3.Function("chin", S, S, B)
+cidx = z3.Function("cidx", S, S, I)                      # an index at which the character occurs
 
 _attr_funcs: Dict[str, z3.FuncDeclRef] = {}
 
@@ -335,6 +339,23 @@ def base_axioms() -> List[z3.BoolRef]:
         z3.Or(z3.And(llen(jl) > 1, z3.Not(all_in(sp, al))),
               z3.And(0 <= jw_, jw_ < llen(jl), z3.Not(all_in(sval(lat(jl, jw_)), al))))),
         patterns=[all_in(joined(sp, jl), al)]))
+    # chin: definition (unfolded only where the Contains term already exists), and theorems given as hints
+    cs, cc = z3.Consts("chs chc", S)
+    ax.append(z3.ForAll([cs, cc], chin(cs, cc) == z3.And(z3.Length(cc) == 1, z3.Contains(cs, cc)),
+                        patterns=[z3.MultiPattern(chin(cs, cc), z3.Contains(cs, cc))]))
+    ax.append(z3.ForAll([cs, cc], z3.Implies(chin(cs, cc), z3.Length(cc) == 1), patterns=[chin(cs, cc)]))
+    ax.append(z3.ForAll([cs], z3.Implies(z3.Length(cs) == 1, chin(cs, cs)), patterns=[chin(cs, cs)]))
+    ax.append(z3.ForAll([cs, cc], z3.Implies(chin(cs, cc), z3.And(0 <= cidx(cs, cc), cidx(cs, cc) < z3.Length(cs),
+                                                                  z3.SubString(cs, cidx(cs, cc), 1) == cc)),
+                        patterns=[chin(cs, cc)]))
+    ax.append(z3.ForAll([sp, jl, j], z3.Implies(z3.And(0 <= j, j < llen(jl), is_StrV(lat(jl, j)),
+                                                       z3.Length(sval(lat(jl, j))) == 1),
+                                                chin(joined(sp, jl), sval(lat(jl, j)))),
+                        patterns=[z3.MultiPattern(joined(sp, jl), lat(jl, j))]))
+    # sep.join(xs) contains every xs[j] (semantics of str.join)
+    ax.append(z3.ForAll([sp, jl, j], z3.Implies(z3.And(0 <= j, j < llen(jl), is_StrV(lat(jl, j))),
+                                                z3.Contains(joined(sp, jl), sval(lat(jl, j)))),
+                        patterns=[z3.MultiPattern(joined(sp, jl), lat(jl, j))]))
     # representation invariant of the float model: a finite float lies within +-DBL_MAX (every FloatV the
     # executor builds goes through float_from_real or lies between two finite floats)
     # (stated for *input* objects only -- `inp` -- and what is reachable from them: an unconditional
